@@ -17,7 +17,7 @@
 (* The trace is linear (no silent steps): acceptance = TLC reaches line    *)
 (* Len(Trace)+1.  A step no action can take is a machinery failure.        *)
 (***************************************************************************)
-EXTENDS Integers, Sequences, FiniteSets, TLC, Json, IOUtils, SequencesExt, FiniteSetsExt, Functions
+EXTENDS Integers, Sequences, FiniteSets, TLC, Json, IOUtils, SequencesExt, FiniteSetsExt, Functions, Reasm
 
 Trace == ndJsonDeserialize(IOEnv.VF_TRACE)
 
@@ -43,10 +43,12 @@ VARIABLES
   step,     \* the driver action that opened the current step
   newData,  \* ep -> Seq([after, before]) new user data sent since ep's previous snapshot
   misc,     \* small per-scenario bookkeeping record
+  rs,       \* <<ep,sid>> -> Reasm state: the specification's own reassembly state of the receiver
+  acc,      \* ep -> set of peer TSNs ep has accepted (stored) so far
   viol      \* set of violation records of the current scenario
 
 vars == <<l, scen, cfg, msg, order, reads, ch, hi, pkt, rcvd, skipTo, ackCum, ackGap, arw, outst,
-          lastSack, sackEv, sn, step, newData, misc, viol>>
+          lastSack, sackEv, sn, step, newData, misc, rs, acc, viol>>
 
 EP == {0, 1}
 Peer(e) == 1 - e
@@ -61,6 +63,14 @@ MaxI(a, b) == IF a >= b THEN a ELSE b
 MinI(a, b) == IF a <= b THEN a ELSE b
 SeqSet(s) == {s[i] : i \in DOMAIN s}
 
+\* misc: probe    - ep -> TSN of the last chunk sent while nothing was outstanding (window probe), -1
+\*       thr      - <<ep,sid>> -> buffered-amount low threshold installed by the application
+\*       cbs      - <<ep,sid>> -> low-threshold callbacks seen since ep's previous snapshot
+\*       ackDue   - ep -> virtual time by which ep owes a SACK for data it was handed, -1 if none
+\*       incn     - <<ep,sid>> -> incarnation counter (open/accept events)
+MiscInit == [probe |-> [e \in EP |-> -1], thr |-> <<>>, cbs |-> <<>>, ackDue |-> [e \in EP |-> -1],
+             incn |-> <<>>, fwdMax |-> [e \in EP |-> -1]]
+
 InitVars ==
   /\ scen = "" /\ cfg = [none |-> TRUE]
   /\ msg = <<>> /\ order = <<>> /\ reads = <<>>
@@ -73,7 +83,8 @@ InitVars ==
   /\ sn = [e \in EP |-> NoSnap]
   /\ step = [ev |-> "none"]
   /\ newData = [e \in EP |-> <<>>]
-  /\ misc = [expectDrained |-> FALSE, probe |-> [e \in EP |-> -1]]
+  /\ misc = MiscInit
+  /\ rs = <<>> /\ acc = [e \in EP |-> {}]
   /\ viol = {}
 
 Init == l = 1 /\ InitVars /\ TLCSet(1, 0)
@@ -94,7 +105,8 @@ TrCfg ==
   /\ sn' = [e \in EP |-> NoSnap]
   /\ step' = [ev |-> "none"]
   /\ newData' = [e \in EP |-> <<>>]
-  /\ misc' = [expectDrained |-> FALSE, probe |-> [e \in EP |-> -1]]
+  /\ misc' = MiscInit
+  /\ rs' = <<>> /\ acc' = [e \in EP |-> {}]
   /\ viol' = {}
   /\ l' = l + 1
 
@@ -111,16 +123,16 @@ WriteViol(e) ==
 \* withdrawn by the "write" event logged at the call's return (its linearization point for errors).
 TrWCall ==
   /\ IsEv("wcall")
-  /\ msg' = (E.id :> E) @@ msg
+  /\ msg' = (E.id :> (E @@ [inc |-> Get(misc.incn, <<E.ep, E.sid>>, 0)])) @@ msg
   /\ LET k == <<E.ep, E.sid>> IN
        order' = IF E.len > 0 THEN (k :> Append(Get(order, k, <<>>), E.id)) @@ order ELSE order
   /\ step' = E
   /\ l' = l + 1
-  /\ UNCHANGED <<scen, cfg, reads, ch, hi, pkt, rcvd, skipTo, ackCum, ackGap, arw, outst, lastSack, sackEv, sn, newData, misc, viol>>
+  /\ UNCHANGED <<scen, cfg, reads, ch, hi, pkt, rcvd, skipTo, ackCum, ackGap, arw, outst, lastSack, sackEv, sn, newData, misc, rs, acc, viol>>
 
 TrWrite ==
   /\ IsEv("write")
-  /\ msg' = (E.id :> E) @@ msg
+  /\ msg' = (E.id :> (E @@ [inc |-> Get(misc.incn, <<E.ep, E.sid>>, 0)])) @@ msg
   /\ LET k == <<E.ep, E.sid>> IN
        order' = IF ~E.ok /\ E.len > 0
                 THEN (k :> SelectSeq(Get(order, k, <<>>), LAMBDA x : x # E.id)) @@ order
@@ -130,7 +142,7 @@ TrWrite ==
                     THEN {V("C18_FailedWriteOnWire", <<E.ep, E.sid, E.id, E.err>>)} ELSE {})
   /\ step' = E
   /\ l' = l + 1
-  /\ UNCHANGED <<scen, cfg, reads, ch, hi, pkt, rcvd, skipTo, ackCum, ackGap, arw, outst, lastSack, sackEv, sn, newData, misc>>
+  /\ UNCHANGED <<scen, cfg, reads, ch, hi, pkt, rcvd, skipTo, ackCum, ackGap, arw, outst, lastSack, sackEv, sn, newData, misc, rs, acc>>
 
 (***************************************************************************)
 (* API: read                                                               *)
@@ -163,13 +175,28 @@ ReadViol(e) ==
     \cup (IF known /\ pos # 0 /\ ~m.unord /\ earlierReliableMissing # {}
           THEN {V("C01_SkippedReliable", <<e.ep, e.sid, e.id, sent[Min(earlierReliableMissing)]>>)} ELSE {})
 
+\* The specification's own reassembly state says which message a successful read must return.
+ReadSpec(e) ==
+  LET k == <<e.ep, e.sid>>
+      x == ReasmRead(Get(rs, k, ReasmInit), IF e.ok THEN e.len ELSE e.buf)
+  IN x
+
 TrRead ==
   /\ IsEv("read")
-  /\ LET k == <<E.ep, E.sid>> IN reads' = (k :> Append(Get(reads, k, <<>>), E)) @@ reads
-  /\ viol' = viol \cup ReadViol(E)
+  /\ LET k == <<E.ep, E.sid>>
+         x == ReadSpec(E)
+         specId == IF x[2].kind = "none" THEN 0 ELSE (CHOOSE c \in x[2].S : TRUE).m
+         drift == IF E.ok THEN (x[2].kind = "none" \/ specId # E.id)
+                  ELSE IF E.err = "short" THEN x[2].kind # "short" \/ x[2].n # E.len ELSE FALSE
+     IN
+       /\ reads' = (k :> Append(Get(reads, k, <<>>), E)) @@ reads
+       /\ rs' = IF E.ok /\ ~drift THEN (k :> x[1]) @@ rs ELSE rs
+       /\ viol' = viol \cup ReadViol(E)
+                   \cup (IF drift THEN {V("C01_ReadNext", <<E.ep, E.sid, E.id, specId, E.err>>)} ELSE {})
+                   \cup (IF ~E.ok /\ E.err = "short" /\ x[2].kind = "short" /\ FALSE THEN {} ELSE {})
   /\ step' = E
   /\ l' = l + 1
-  /\ UNCHANGED <<scen, cfg, msg, order, ch, hi, pkt, rcvd, skipTo, ackCum, ackGap, arw, outst, lastSack, sackEv, sn, newData, misc>>
+  /\ UNCHANGED <<scen, cfg, msg, order, ch, hi, pkt, rcvd, skipTo, ackCum, ackGap, arw, outst, lastSack, sackEv, sn, newData, misc, acc>>
 
 (***************************************************************************)
 (* Wire: packet header written by an endpoint (or forged by the harness)   *)
@@ -193,13 +220,13 @@ TrTx ==
   /\ pkt' = (E.pid :> [ep |-> E.ep, ck |-> E.ck, forged |-> FALSE, t |-> E.t, kinds |-> E.kinds, chunks |-> <<>>]) @@ pkt
   /\ viol' = viol \cup TxViol(E)
   /\ l' = l + 1
-  /\ UNCHANGED <<scen, cfg, msg, order, reads, ch, hi, rcvd, skipTo, ackCum, ackGap, arw, outst, lastSack, sackEv, sn, step, newData, misc>>
+  /\ UNCHANGED <<scen, cfg, msg, order, reads, ch, hi, rcvd, skipTo, ackCum, ackGap, arw, outst, lastSack, sackEv, sn, step, newData, misc, rs, acc>>
 
 TrForge ==
   /\ IsEv("forge")
   /\ pkt' = (E.pid :> [ep |-> E.ep, ck |-> E.ck, forged |-> TRUE, t |-> E.t, kinds |-> E.kinds, chunks |-> <<>>]) @@ pkt
   /\ l' = l + 1
-  /\ UNCHANGED <<scen, cfg, msg, order, reads, ch, hi, rcvd, skipTo, ackCum, ackGap, arw, outst, lastSack, sackEv, sn, step, newData, misc, viol>>
+  /\ UNCHANGED <<scen, cfg, msg, order, reads, ch, hi, rcvd, skipTo, ackCum, ackGap, arw, outst, lastSack, sackEv, sn, step, newData, misc, rs, acc, viol>>
 
 (***************************************************************************)
 (* Wire: one chunk of the packet announced by the preceding header         *)
@@ -262,7 +289,7 @@ TrChunkData ==
   /\ pkt' = [pkt EXCEPT ![E.pid].chunks = Append(@, E)]
   /\ viol' = viol \cup DataViol(E)
   /\ l' = l + 1
-  /\ UNCHANGED <<scen, cfg, msg, order, reads, rcvd, skipTo, ackCum, ackGap, arw, lastSack, sackEv, sn, step>>
+  /\ UNCHANGED <<scen, cfg, msg, order, reads, rcvd, skipTo, ackCum, ackGap, arw, lastSack, sackEv, sn, step, rs, acc>>
 
 \* --- SACK written by endpoint e (about the peer's TSNs)
 SackViol(c) ==
@@ -288,21 +315,61 @@ TrChunkSack ==
   /\ sackEv' = [sackEv EXCEPT ![E.ep] = E]
   /\ pkt' = [pkt EXCEPT ![E.pid].chunks = Append(@, E)]
   /\ viol' = viol \cup (IF "bad" \in DOMAIN E THEN {V("C12_WellFormed", <<E.ep, E.pid, "sack">>)} ELSE SackViol(E))
+              \cup (IF misc.ackDue[E.ep] >= 0 /\ E.t > misc.ackDue[E.ep] THEN {V("C19_AckDelay", <<E.ep, misc.ackDue[E.ep], E.t>>)} ELSE {})
+  /\ misc' = [misc EXCEPT !.ackDue[E.ep] = -1]
   /\ l' = l + 1
-  /\ UNCHANGED <<scen, cfg, msg, order, reads, ch, hi, rcvd, skipTo, ackCum, ackGap, arw, outst, sn, step, newData, misc>>
+  /\ UNCHANGED <<scen, cfg, msg, order, reads, ch, hi, rcvd, skipTo, ackCum, ackGap, arw, outst, sn, step, newData, rs, acc>>
+
+\* --- FORWARD-TSN / I-FORWARD-TSN written by endpoint e (C07: the peer is told to skip exactly the
+\*     abandoned messages).  Range = TSNs above what the peer has cumulatively acknowledged.
+FwdViol(c) ==
+  LET e == c.ep
+      rng == {t \in DOMAIN ch[e] : t > ackCum[e] /\ t <= c.cum}
+      unackd == {t \in rng : t \notin ackGap[e]}
+      notPR == {t \in unackd : ch[e][t].id \in DOMAIN msg /\ (msg[ch[e][t].id].rtype = 0 \/ ch[e][t].ppi = 50 \/ msg[ch[e][t].id].ppi = 50)}
+      never == {t \in (ackCum[e] + 1)..c.cum : t \notin DOMAIN ch[e]}
+      il == c.k = "ifwd"
+      \* expected stream list: per stream (and per ordering class with interleaving) the largest sequence
+      \* number among the skipped ORDERED (resp. matching) chunks
+      ordSids == {ch[e][t].sid : t \in {x \in rng : ~ch[e][x].u}}
+      unoSids == {ch[e][t].sid : t \in {x \in rng : ch[e][x].u}}
+      maxSeq(sid, u) == Max({IF il THEN ch[e][t].mid ELSE ch[e][t].ssn : t \in {x \in rng : ch[e][x].sid = sid /\ ch[e][x].u = u}})
+      expected == IF il THEN {<<sid, 0, maxSeq(sid, FALSE)>> : sid \in ordSids} \cup {<<sid, 1, maxSeq(sid, TRUE)>> : sid \in unoSids}
+                  ELSE {<<sid, maxSeq(sid, FALSE)>> : sid \in ordSids}
+      listed == SeqSet(c.streams)
+  IN
+    (IF (c.k = "ifwd") # UseIL THEN {V("C17_FwdKind", <<e, c.cum, c.k>>)} ELSE {})
+    \cup (IF notPR # {} THEN {V("C07_SkipOnlyAbandonable", <<e, c.cum, Min(notPR), ch[e][Min(notPR)].id>>)} ELSE {})
+    \cup (IF never # {} THEN {V("C07_SkipNeverSent", <<e, c.cum, Min(never)>>)} ELSE {})
+    \cup (IF c.cum > ackCum[e] /\ listed # expected
+          THEN {V("C07_FwdStreams", <<e, c.cum, c.streams, IF listed \ expected # {} THEN "extra-entry" ELSE "missing-entry",
+                                      IF \E en \in listed \ expected : en[1] \in unoSids /\ en[1] \notin ordSids THEN "unordered-only-stream" ELSE "other">>)}
+          ELSE {})
+    \cup (IF Len(c.streams) # Cardinality(listed) THEN {V("C07_FwdDuplicateEntry", <<e, c.cum, c.streams>>)} ELSE {})
+
+TrChunkFwd ==
+  /\ IsEv("c") /\ E.k \in {"fwd", "ifwd"} /\ ~pkt[E.pid].forged
+  /\ pkt' = [pkt EXCEPT ![E.pid].chunks = Append(@, E)]
+  /\ misc' = [misc EXCEPT !.fwdMax[E.ep] = MaxI(@, E.cum)]
+  /\ viol' = viol \cup (IF "bad" \in DOMAIN E THEN {V("C12_WellFormed", <<E.ep, E.pid, E.k>>)} ELSE FwdViol(E))
+  /\ l' = l + 1
+  /\ UNCHANGED <<scen, cfg, msg, order, reads, ch, hi, rcvd, skipTo, ackCum, ackGap, arw, outst, lastSack, sackEv, sn, step, newData, rs, acc>>
 
 \* --- any other chunk (handshake, reconfig, shutdown, abort, heartbeat ...): stored with the packet
 TrChunkOther ==
-  /\ IsEv("c") /\ (pkt[E.pid].forged \/ E.k \notin (DataKinds \cup {"sack"}))
+  /\ IsEv("c") /\ (pkt[E.pid].forged \/ E.k \notin (DataKinds \cup {"sack", "fwd", "ifwd"}))
   /\ pkt' = [pkt EXCEPT ![E.pid].chunks = Append(@, E)]
   /\ l' = l + 1
-  /\ UNCHANGED <<scen, cfg, msg, order, reads, ch, hi, rcvd, skipTo, ackCum, ackGap, arw, outst, lastSack, sackEv, sn, step, newData, misc, viol>>
+  /\ UNCHANGED <<scen, cfg, msg, order, reads, ch, hi, rcvd, skipTo, ackCum, ackGap, arw, outst, lastSack, sackEv, sn, step, newData, misc, rs, acc, viol>>
 
 (***************************************************************************)
 (* Driver: a packet is handed to its destination                           *)
 (***************************************************************************)
 ChunksOfKind(p, ks) == {p.chunks[i] : i \in {j \in DOMAIN p.chunks : p.chunks[j].k \in ks}}
 Wellformed(c) == "bad" \notin DOMAIN c
+
+\* an owed SACK whose deadline passed before virtual time t (checked whenever time is observed)
+AckLate(t) == {V("C19_AckDelay", <<e, misc.ackDue[e], t>>) : e \in {x \in EP : misc.ackDue[x] >= 0 /\ t > misc.ackDue[x]}}
 
 TrRx ==
   /\ IsEv("rx")
@@ -327,51 +394,160 @@ TrRx ==
        /\ outst' = [outst EXCEPT ![to] = @ - MapThenSumSet(LAMBDA t : ch[to][t].len, newly)]
        /\ arw' = [arw EXCEPT ![to] = IF live /\ sacks # {} THEN (CHOOSE c \in sacks : TRUE).arwnd
                                      ELSE IF live /\ inits # {} THEN (CHOOSE c \in inits : TRUE).arwnd ELSE @]
+       \* C19: data handed to an established endpoint must be acknowledged within 200 ms
+       /\ misc' = IF live /\ dataT # {} /\ sn[to] # NoSnap /\ sn[to].st = "established" /\ misc.ackDue[to] < 0
+                  THEN [misc EXCEPT !.ackDue[to] = E.t + 200] ELSE misc
+       /\ viol' = viol \cup AckLate(E.t)
   /\ step' = E
   /\ l' = l + 1
-  /\ UNCHANGED <<scen, cfg, msg, order, reads, ch, hi, pkt, lastSack, sackEv, sn, newData, misc, viol>>
+  /\ UNCHANGED <<scen, cfg, msg, order, reads, ch, hi, pkt, lastSack, sackEv, sn, newData, rs, acc>>
 
 (***************************************************************************)
 (* Snapshot of an endpoint at quiescence                                   *)
 (***************************************************************************)
 Established(s) == s.st \in {"established", "shutdownPending", "shutdownReceived", "shutdownSent"}
 
-SnapViol(s) ==
+\* ---- the receiver's reassembly state, recomputed by the specification -----------------------
+\* a wire chunk as a Reasm chunk
+RChunk(c) == [tsn |-> c.tsn, seq |-> IF c.il THEN c.mid ELSE c.ssn, fi |-> IF c.il THEN c.fsn ELSE c.fi,
+              b |-> c.b, e |-> c.e, len |-> c.len, ppi |-> c.ppi, u |-> c.u, il |-> c.il, m |-> c.id]
+PrevRcum(e) == IF sn[e] = NoSnap THEN -1 ELSE sn[e].rcum
+Upd(f, k, v) == (k :> v) @@ f
+
+\* forward-TSN applied to the specification's reassembly states of endpoint e (repaired semantics:
+\* every listed stream is purged whether or not the application has created / configured it)
+RECURSIVE FwdEntries(_, _, _, _, _)
+FwdEntries(R, e, c, i, il) ==
+  IF i > Len(c.streams) THEN R
+  ELSE LET en == c.streams[i]
+           k  == <<e, en[1]>>
+           r0 == Get(R, k, ReasmInit)
+           r1 == IF il THEN (IF en[2] = 1 THEN ReasmFwdUnorderedMID([r0 EXCEPT !.il = TRUE], en[3])
+                                           ELSE ReasmFwdOrdered([r0 EXCEPT !.il = TRUE], en[3]))
+                 ELSE ReasmFwdOrdered(r0, en[2])
+       IN FwdEntries(Upd(R, k, r1), e, c, i + 1, il)
+FwdAll(R, e, c) ==
+  LET R1 == FwdEntries(R, e, c, 1, c.k = "ifwd") IN
+  IF c.k = "ifwd" THEN R1
+  ELSE [k \in DOMAIN R1 |-> IF k[1] = e THEN ReasmFwdUnordered(R1[k], c.cum) ELSE R1[k]]
+
+\* fold over the chunks of the packet handed to e in this step; st = [R, seen]
+RECURSIVE RxFold(_, _, _, _, _)
+RxFold(st, e, s, chunks, i) ==
+  IF i > Len(chunks) THEN st
+  ELSE LET c == chunks[i] IN
+    IF c.k \in DataKinds /\ "bad" \notin DOMAIN c THEN
+      IF c.tsn \notin acc[e] /\ c.tsn \notin st.seen
+         /\ (c.tsn \in SeqSet(s.held) \/ (c.tsn <= s.rcum /\ c.tsn > PrevRcum(e)))
+      THEN LET k == <<e, c.sid>> IN
+           RxFold([R |-> Upd(st.R, k, ReasmPush(Get(st.R, k, ReasmInit), RChunk(c))[1]), seen |-> st.seen \cup {c.tsn}],
+                  e, s, chunks, i + 1)
+      ELSE RxFold(st, e, s, chunks, i + 1)
+    ELSE IF c.k \in {"fwd", "ifwd"} /\ "bad" \notin DOMAIN c /\ c.cum > PrevRcum(e) /\ Established(s)
+    THEN RxFold([st EXCEPT !.R = FwdAll(st.R, e, c)], e, s, chunks, i + 1)
+    ELSE RxFold(st, e, s, chunks, i + 1)
+
+\* streams that were (re-)registered since the previous snapshot start a new incarnation
+NewlyRegistered(e, s) == {sid \in SeqSet(s.reg) : sn[e] # NoSnap /\ sid \notin SeqSet(sn[e].reg)}
+RxResult(e, s) ==
+  LET R0 == [k \in DOMAIN rs |-> IF k[1] = e /\ k[2] \in NewlyRegistered(e, s) THEN ReasmInit ELSE rs[k]]
+      live == step.ev = "rx" /\ step.to = e /\ step.ok /\ step.pid \in DOMAIN pkt /\ pkt[step.pid].ck # "bad"
+  IN IF live THEN RxFold([R |-> R0, seen |-> {}], e, s, pkt[step.pid].chunks, 1) ELSE [R |-> R0, seen |-> {}]
+
+\* ---- sender-side accounting (C15) ----------------------------------------------------------
+IncOf(e, sid) == Get(misc.incn, <<e, sid>>, 0)
+WrittenBytes(e, sid) == MapThenSumSet(LAMBDA id : msg[id].len,
+                          {id \in DOMAIN msg : msg[id].ep = e /\ msg[id].sid = sid /\ msg[id].ok /\ msg[id].inc = IncOf(e, sid)})
+ReleasedBytes(e, sid) == MapThenSumSet(LAMBDA t : ch[e][t].len,
+                          {t \in DOMAIN ch[e] : ch[e][t].sid = sid /\ (t <= ackCum[e] \/ t \in ackGap[e])
+                                                /\ ch[e][t].id \in DOMAIN msg /\ msg[ch[e][t].id].inc = IncOf(e, sid)})
+AllWritten(e) == MapThenSumSet(LAMBDA id : msg[id].len, {id \in DOMAIN msg : msg[id].ep = e /\ msg[id].ok})
+AllReleased(e) == MapThenSumSet(LAMBDA t : ch[e][t].len, {t \in DOMAIN ch[e] : t <= ackCum[e] \/ t \in ackGap[e]})
+
+SnapViol(s, R) ==
   LET e == s.ep
       nd == newData[e]
-      wnd == MinI(s.cwnd, arw[e])
       \* new user data is sent only within cwnd and the peer's advertised window; probe exception
       badWindow == {i \in DOMAIN nd : nd[i].before # 0 /\ ~(nd[i].after <= s.cwnd /\ nd[i].after - nd[i].allow <= arw[e])}
       \* the strong completeness check: the step delivered one packet of DATA chunks only
       p  == IF step.ev = "rx" /\ step.pid \in DOMAIN pkt THEN pkt[step.pid] ELSE [kinds |-> <<>>, forged |-> TRUE]
       onlyData == step.ev = "rx" /\ step.to = e /\ ~p.forged /\ p.kinds # <<>> /\ \A i \in DOMAIN p.kinds : p.kinds[i] \in DataKinds
       sk == sackEv[e]
+      prev == sn[e]
+      strs == {s.streams[i] : i \in DOMAIN s.streams}
+      regStrs == {x \in strs : x.reg}
+      specHeld == MapThenSumSet(LAMBDA x : Get(R, <<e, x.sid>>, ReasmInit).nb, regStrs)
+      loss == prev # NoSnap /\ (s.nt3 > prev.nt3)
+      enterFR == prev # NoSnap /\ s.infr /\ ~prev.infr
+      mtu == Cfg(e).mtu
+      floorC == MaxI(mtu, Cfg(e).mincwnd)
+      half(x) == MaxI(x \div 2, 4 * mtu)
+      dataHanded == step.ev = "rx" /\ step.to = e /\ step.ok /\ ~p.forged /\ "ck" \in DOMAIN p /\ p.ck # "bad"
+                    /\ \E i \in DOMAIN p.kinds : p.kinds[i] \in DataKinds
+      \* a gap or a duplicate was seen in the packet just handed to e
+      dataCs == IF dataHanded THEN {c \in ChunksOfKind(p, DataKinds) : "bad" \notin DOMAIN c} ELSE {}
+      sawDup == \E c \in dataCs : c.tsn \in acc[e] \/ c.tsn <= PrevRcum(e)
+      sawGap == s.nheld > 0
   IN
     (IF badWindow # {} THEN {V("C10_Window", <<e, nd[Min(badWindow)].tsn, nd[Min(badWindow)].after, s.cwnd, arw[e]>>)} ELSE {})
-    \cup (IF Established(s) /\ s.cwnd < Cfg(e).mtu THEN {V("C10_CwndFloor", <<e, s.cwnd>>)} ELSE {})
+    \cup (IF Established(s) /\ s.cwnd < mtu THEN {V("C10_CwndFloor", <<e, s.cwnd>>)} ELSE {})
+    \cup (IF loss /\ Established(s) /\ (s.cwnd # floorC \/ s.ssthresh # half(prev.cwnd))
+          THEN {V("C10_T3Cut", <<e, prev.cwnd, s.cwnd, s.ssthresh>>)} ELSE {})
+    \cup (IF enterFR /\ ~loss /\ (s.ssthresh # half(prev.cwnd) \/ s.cwnd # s.ssthresh)
+          THEN {V("C10_FastRecoveryCut", <<e, prev.cwnd, s.cwnd, s.ssthresh>>)} ELSE {})
     \cup (IF onlyData /\ sk # <<>> /\ (sk.cum # s.rcum \/ GapTSNs(sk) # SeqSet(s.held))
           THEN {V("C05_CompleteNow", <<e, sk.cum, s.rcum>>)} ELSE {})
     \cup (IF s.nheld > Cfg(e).W THEN {V("C11_Bounded", <<e, s.nheld>>)} ELSE {})
     \cup (IF \E i \in DOMAIN s.held : s.held[i] > s.rcum + Cfg(e).W THEN {V("C11_Window", <<e, s.rcum>>)} ELSE {})
     \cup (IF \E i \in DOMAIN s.held : s.held[i] \notin rcvd[e] THEN {V("C05_HeldReceived", <<e, s.rcum>>)} ELSE {})
+    \* C11: the bytes each registered stream holds are exactly what the specification's reassembly holds
+    \cup {V("C11_HeldBytes", <<e, x.sid, x.rb, Get(R, <<e, x.sid>>, ReasmInit).nb>>) :
+             x \in {y \in regStrs : y.rb # Get(R, <<e, y.sid>>, ReasmInit).nb}}
+    \cup (IF onlyData /\ sk # <<>> /\ sk.arwnd # MaxI(0, Cfg(e).buf - specHeld)
+          THEN {V("C11_Arwnd", <<e, sk.arwnd, Cfg(e).buf, specHeld>>)} ELSE {})
+    \cup (IF Established(s) /\ s.arwnd # MaxI(0, Cfg(e).buf - specHeld) THEN {V("C11_ArwndNow", <<e, s.arwnd, Cfg(e).buf, specHeld>>)} ELSE {})
+    \* C07: the receiver's next-expected cursor is where the specification says (forward-TSN skips)
+    \cup {V("C07_Cursor", <<e, x.sid, IF Get(R, <<e, x.sid>>, ReasmInit).il THEN x.rmid ELSE x.rssn, Get(R, <<e, x.sid>>, ReasmInit).next>>) :
+             x \in {y \in regStrs : <<e, y.sid>> \in DOMAIN R /\ (IF R[<<e, y.sid>>].il THEN y.rmid ELSE y.rssn) # R[<<e, y.sid>>].next % 65536}}
+    \* C15: per-stream buffered amount = accepted writes - bytes acknowledged (or skipped and acknowledged)
+    \cup {V("C15_StreamExact", <<e, x.sid, x.ba, WrittenBytes(e, x.sid), ReleasedBytes(e, x.sid)>>) :
+             x \in {y \in strs : y.known /\ y.ba # WrittenBytes(e, y.sid) - ReleasedBytes(e, y.sid)}}
+    \cup (IF s.abuf # AllWritten(e) - AllReleased(e) /\ s.st # "closed" THEN {V("C15_AssocExact", <<e, s.abuf, AllWritten(e), AllReleased(e)>>)} ELSE {})
+    \* C15: one callback per downward crossing of the threshold, none otherwise
+    \cup {V("C15_Callback", <<e, x.sid, Get(misc.cbs, <<e, x.sid>>, 0), x.ba>>) :
+             x \in {y \in strs : y.known /\ <<e, y.sid>> \in DOMAIN misc.thr /\ prev # NoSnap
+                      /\ LET py == {z \in {prev.streams[i] : i \in DOMAIN prev.streams} : z.sid = y.sid /\ z.known}
+                             th == misc.thr[<<e, y.sid>>]
+                             crossed == py # {} /\ (CHOOSE z \in py : TRUE).ba > th /\ y.ba <= th
+                         IN Get(misc.cbs, <<e, y.sid>>, 0) # (IF crossed THEN 1 ELSE 0)}}
+    \* C19: a gap or a duplicate is acknowledged at once
+    \cup (IF dataHanded /\ Established(s) /\ s.st = "established" /\ (sawDup \/ sawGap) /\ sk = <<>>
+          THEN {V("C19_AckImmediate", <<e, IF sawDup THEN "duplicate" ELSE "gap", s.rcum>>)} ELSE {})
+
+SnapStep(s) ==
+  LET e == s.ep
+      x == RxResult(e, s)
+  IN
+  /\ rs' = x.R
+  /\ acc' = [acc EXCEPT ![e] = @ \cup x.seen]
+  /\ newData' = [newData EXCEPT ![e] = <<>>]
+  /\ sackEv' = [sackEv EXCEPT ![e] = <<>>]
+  /\ misc' = [misc EXCEPT !.cbs = [k \in DOMAIN @ |-> IF k[1] = e THEN 0 ELSE @[k]]]
+  /\ viol' = viol \cup SnapViol(s, x.R) \cup AckLate(s.t)
 
 TrSnap ==
   /\ IsEv("snap")
   /\ sn' = [sn EXCEPT ![E.ep] = E]
-  /\ newData' = [newData EXCEPT ![E.ep] = <<>>]
-  /\ sackEv' = [sackEv EXCEPT ![E.ep] = <<>>]
-  /\ viol' = viol \cup SnapViol(E)
+  /\ SnapStep(E)
   /\ l' = l + 1
-  /\ UNCHANGED <<scen, cfg, msg, order, reads, ch, hi, pkt, rcvd, skipTo, ackCum, ackGap, arw, outst, lastSack, step, misc>>
+  /\ UNCHANGED <<scen, cfg, msg, order, reads, ch, hi, pkt, rcvd, skipTo, ackCum, ackGap, arw, outst, lastSack, step>>
 
 \* "same": the endpoint's projection at this quiescent point equals its previous snapshot
 TrSame ==
   /\ IsEv("same") /\ sn[E.ep] # NoSnap
-  /\ newData' = [newData EXCEPT ![E.ep] = <<>>]
-  /\ sackEv' = [sackEv EXCEPT ![E.ep] = <<>>]
-  /\ viol' = viol \cup SnapViol(sn[E.ep])
+  /\ SnapStep([sn[E.ep] EXCEPT !.t = E.t])
   /\ l' = l + 1
-  /\ UNCHANGED <<scen, cfg, msg, order, reads, ch, hi, pkt, rcvd, skipTo, ackCum, ackGap, arw, outst, lastSack, sn, step, misc>>
+  /\ UNCHANGED <<scen, cfg, msg, order, reads, ch, hi, pkt, rcvd, skipTo, ackCum, ackGap, arw, outst, lastSack, sn, step>>
 
 (***************************************************************************)
 (* Scenario end: print the violations                                      *)
@@ -386,20 +562,69 @@ TrEnd ==
        /\ \A v \in vs : PrintT(<<"VFVIOL", ToJson(v)>>)
        /\ viol' = {}
   /\ l' = l + 1
-  /\ UNCHANGED <<scen, cfg, msg, order, reads, ch, hi, pkt, rcvd, skipTo, ackCum, ackGap, arw, outst, lastSack, sackEv, sn, step, newData, misc>>
+  /\ UNCHANGED <<scen, cfg, msg, order, reads, ch, hi, pkt, rcvd, skipTo, ackCum, ackGap, arw, outst, lastSack, sackEv, sn, step, newData, misc, rs, acc>>
 
 (***************************************************************************)
 (* Events that only open a step or carry information used by other specs   *)
 (***************************************************************************)
-Passive == {"api", "tick", "drop", "connclose", "txfail", "cb", "expect", "note"}
+TrApi ==
+  /\ IsEv("api")
+  /\ misc' = CASE E.op = "threshold" -> [misc EXCEPT !.thr = Upd(@, <<E.ep, E.sid>>, E.val), !.cbs = Upd(@, <<E.ep, E.sid>>, 0)]
+               [] E.op \in {"open", "accept"} /\ E.ok -> [misc EXCEPT !.incn = Upd(@, <<E.ep, E.sid>>, Get(@, <<E.ep, E.sid>>, 0) + 1)]
+               [] OTHER -> misc
+  /\ viol' = viol \cup AckLate(E.t)
+  /\ step' = E
+  /\ l' = l + 1
+  /\ UNCHANGED <<scen, cfg, msg, order, reads, ch, hi, pkt, rcvd, skipTo, ackCum, ackGap, arw, outst, lastSack, sackEv, sn, newData, rs, acc>>
+
+TrCb ==
+  /\ IsEv("cb")
+  /\ misc' = [misc EXCEPT !.cbs = Upd(@, <<E.ep, E.sid>>, Get(@, <<E.ep, E.sid>>, 0) + 1)]
+  /\ l' = l + 1
+  /\ UNCHANGED <<scen, cfg, msg, order, reads, ch, hi, pkt, rcvd, skipTo, ackCum, ackGap, arw, outst, lastSack, sackEv, sn, step, newData, rs, acc, viol>>
+
+\* the driver lets virtual time pass
+TrTick ==
+  /\ IsEv("tick")
+  /\ viol' = viol \cup AckLate(E.t)
+  /\ step' = E
+  /\ l' = l + 1
+  /\ UNCHANGED <<scen, cfg, msg, order, reads, ch, hi, pkt, rcvd, skipTo, ackCum, ackGap, arw, outst, lastSack, sackEv, sn, newData, misc, rs, acc>>
+
+\* "expect": the scenario healed the network, let D = 3*RTO.max + 2 s of virtual time pass while the
+\* application kept reading, and read everything readable: C02 / C07 final obligations
+Abandoned(id) == \E e \in EP : \E t \in DOMAIN ch[e] : ch[e][t].id = id /\ t <= misc.fwdMax[e]
+DeliveredIds == UNION {{reads[k][i].id : i \in {j \in DOMAIN reads[k] : reads[k][j].ok}} : k \in DOMAIN reads}
+ExpectViol(x) ==
+  LET undel == {id \in DOMAIN msg : msg[id].ok /\ msg[id].len > 0 /\ id \notin DeliveredIds}
+      relMissing == {id \in undel : msg[id].rtype = 0 \/ msg[id].ppi = 50}
+      prMissing == {id \in undel \ relMissing : ~Abandoned(id)}
+  IN
+    {V("C02_Delivered", <<msg[id].ep, msg[id].sid, id, msg[id].len>>) : id \in relMissing}
+    \cup {V("C07_LaterDelivered", <<msg[id].ep, msg[id].sid, id, msg[id].len>>) : id \in prMissing}
+    \cup UNION {{V("C02_BufferedZero", <<e, y.sid, y.ba>>) : y \in {z \in {sn[e].streams[i] : i \in DOMAIN sn[e].streams} : z.known /\ z.ba # 0}}
+                : e \in {q \in EP : sn[q] # NoSnap}}
+    \cup {V("C02_AssocBufferedZero", <<e, sn[e].abuf>>) : e \in {q \in EP : sn[q] # NoSnap /\ sn[q].abuf # 0 /\ sn[q].st = "established"}}
+    \* once everything was delivered (or skipped) and read, the advertised window is the whole buffer again
+    \cup {V("C11_FullWindowWhenRead", <<e, sn[e].arwnd, Cfg(e).buf>>) :
+             e \in {q \in EP : relMissing = {} /\ prMissing = {} /\ sn[q] # NoSnap /\ sn[q].st = "established" /\ sn[q].arwnd # Cfg(q).buf}}
+
+TrExpect ==
+  /\ IsEv("expect")
+  /\ viol' = viol \cup ExpectViol(E)
+  /\ step' = E
+  /\ l' = l + 1
+  /\ UNCHANGED <<scen, cfg, msg, order, reads, ch, hi, pkt, rcvd, skipTo, ackCum, ackGap, arw, outst, lastSack, sackEv, sn, newData, misc, rs, acc>>
+
+Passive == {"drop", "connclose", "txfail", "note"}
 TrPassive ==
   /\ l <= Len(Trace) /\ Trace[l].ev \in Passive
   /\ step' = E
   /\ l' = l + 1
-  /\ UNCHANGED <<scen, cfg, msg, order, reads, ch, hi, pkt, rcvd, skipTo, ackCum, ackGap, arw, outst, lastSack, sackEv, sn, newData, misc, viol>>
+  /\ UNCHANGED <<scen, cfg, msg, order, reads, ch, hi, pkt, rcvd, skipTo, ackCum, ackGap, arw, outst, lastSack, sackEv, sn, newData, misc, rs, acc, viol>>
 
-Next == TrCfg \/ TrWCall \/ TrWrite \/ TrRead \/ TrTx \/ TrForge \/ TrChunkData \/ TrChunkSack \/ TrChunkOther
-        \/ TrRx \/ TrSnap \/ TrSame \/ TrEnd \/ TrPassive
+Next == TrCfg \/ TrWCall \/ TrWrite \/ TrRead \/ TrTx \/ TrForge \/ TrChunkData \/ TrChunkSack \/ TrChunkFwd \/ TrChunkOther
+        \/ TrRx \/ TrSnap \/ TrSame \/ TrEnd \/ TrApi \/ TrCb \/ TrTick \/ TrExpect \/ TrPassive
 
 Spec == Init /\ [][Next]_vars
 
